@@ -51,7 +51,106 @@ def replace_kid(e, i, new):
     return ("node", cls, n, v, kids, extra)
 
 
+
+def resolution_and_retarget_cases(ctx):
+    """Oracles on the implementation alone for two clauses that need no model:
+    (1) Pattern.value resolves tuples containing patterns RECURSIVELY down to scalars (any nesting depth), each inner
+        pattern advancing by exactly one value per resolution;
+    (2) re-targeting a PRef takes effect from the very next step wherever the reference sits: as a direct parameter, as
+        an item of a PSequence's list, as a value of a PDict."""
+    common.ensure_repo_on_path()
+    import isobar as iso
+    r = ctx.rng
+
+    def is_pat(x):
+        return isinstance(x, iso.Pattern)
+
+    def canon(x):
+        if isinstance(x, tuple):
+            return tuple(canon(y) for y in x)
+        if is_pat(x):
+            return "<unresolved %s>" % type(x).__name__
+        return x
+    # (1)
+    for i in range(ctx.scale(150, 4000)):
+        streams = []
+
+        def mk(depth):
+            if depth == 0 or r.random() < 0.3:
+                if r.random() < 0.5:
+                    vals = [r.randint(-9, 9) for _ in range(r.randint(1, 4))]
+                    streams.append(vals)
+                    return ("pat", len(streams) - 1)
+                return ("lit", r.randint(-9, 9))
+            return ("tup", [mk(depth - 1) for _ in range(r.randint(1, 3))])
+        shape = ("tup", [mk(r.randint(1, 3)) for _ in range(r.randint(1, 3))])
+        pats = [iso.PSequence(v) for v in streams]
+
+        def build(sh):
+            if sh[0] == "lit":
+                return sh[1]
+            if sh[0] == "pat":
+                return pats[sh[1]]
+            return tuple(build(x) for x in sh[1])
+
+        def expect(sh, step):
+            if sh[0] == "lit":
+                return sh[1]
+            if sh[0] == "pat":
+                v = streams[sh[1]]
+                return v[step % len(v)]
+            return tuple(expect(x, step) for x in sh[1])
+        obj = build(shape)
+        bad = None
+        for step in range(r.randint(2, 5)):
+            got = canon(iso.Pattern.value(obj))
+            exp = expect(shape, step)
+            if got != exp:
+                bad = "resolution %d of a nested tuple gives %r, expected %r" % (step, got, exp)
+                break
+        ctx.case(("resolve", repr(shape)), nontrivial=bool(streams), validated=False,
+                 sample={"nested_tuple": repr(shape)[:200]} if i < 2 else None)
+        ctx.count("resolve:patterns=%d" % min(len(streams), 4))
+        if bad:
+            ctx.violation("C12:value-resolves-recursively", bad, {"suite": "resolve", "shape": repr(shape), "streams": streams})
+    # (2)
+    for i in range(ctx.scale(150, 4000)):
+        a = [r.randint(0, 50) for _ in range(r.randint(1, 4))]
+        b = [r.randint(100, 150) for _ in range(r.randint(1, 4))]
+        ref = iso.PRef(iso.PSequence(a))
+        where = r.choice(["direct", "seq-item", "pdict-value", "operand", "stutter-input"])
+        if where == "direct":
+            p = ref
+            slot = lambda v: v
+        elif where == "seq-item":
+            p = iso.PSequence([ref])
+            slot = lambda v: v
+        elif where == "pdict-value":
+            p = iso.PDict({"note": ref, "amp": 64})
+            slot = lambda v: v["note"]
+        elif where == "operand":
+            p = ref + 1000
+            slot = lambda v: v - 1000
+        else:
+            p = iso.PStutter(ref, 1)
+            slot = lambda v: v
+        k = r.randint(0, 5)
+        got_a = [slot(next(p)) for _ in range(k)]
+        ref.set_pattern(iso.PSequence(b))
+        got_b = [slot(next(p)) for _ in range(r.randint(1, 5))]
+        exp_a = [a[j % len(a)] for j in range(k)]
+        exp_b = [b[j % len(b)] for j in range(len(got_b))]
+        ctx.case(("retarget", where, tuple(a), tuple(b), k), nontrivial=True, validated=False,
+                 sample={"retarget": {"where": where, "before": got_a, "after": got_b}} if i < 2 else None)
+        ctx.count("retarget:" + where)
+        if got_a != exp_a or got_b != exp_b:
+            ctx.violation("C12:pref-retarget:" + where,
+                          "PRef %s: before re-targeting %s (expected %s), after set_pattern %s (expected %s)" % (where, got_a, exp_a, got_b, exp_b),
+                          {"suite": "retarget", "where": where, "a": a, "b": b, "steps_before": k})
+
+
 def run(ctx):
+    resolution_and_retarget_cases(ctx)
     reg_pairs = ast_registry()
     modelled = {}
     for c in sorted(REG):
